@@ -34,16 +34,18 @@ rows = ["| Seeded change | Property | Files changed | Existing suite with the ch
 caught = total = 0
 for path in sorted(glob.glob("seeded/*/meta.json")):
     m = json.load(open(path)); d = os.path.dirname(path)
-    oc = m["our_check"]; total += 1; caught += bool(oc["caught_by_quick"])
+    oc = m["our_check"]; total += 1; caught += bool(oc["caught_by_quick"]); disputed = locals().get("disputed", 0) + bool(oc.get("disputed"))
     note = " (missed by the first version, caught after strengthening)" if oc.get("caught_by_quick_initially") is False and oc["caught_by_quick"] else ""
-    rows.append(f"| `{d}/` | {m['property']} | {', '.join(m['files_changed'])} | {m['verified']['existing_tests_with_change'].split(',')[0]} | {m['verified']['demo_exit_unchanged_tree']} / {m['verified']['demo_exit_with_change']} | {'yes' if oc['caught_by_quick'] else 'NO'}{note} | {', '.join('`'+b+'`' for b in oc['buckets'][:3])}{' …' if len(oc['buckets'])>3 else ''} |")
-put("SEEDED", f"{total} independently seeded changes (one sub-agent per pair of properties, given only the property text and a scratch worktree); {caught} are caught by the quick tier of the property's check.\n\n" + "\n".join(rows))
+    rows.append(f"| `{d}/` | {m['property']} | {', '.join(m['files_changed'])} | {m['verified']['existing_tests_with_change'].split(',')[0]} | {m['verified']['demo_exit_unchanged_tree']} / {m['verified']['demo_exit_with_change']} | {('yes' + (' (by ' + oc['caught_by'] + ')' if oc.get('caught_by') else '')) if oc['caught_by_quick'] else ('disputed (see note)' if oc.get('disputed') else 'NO')}{note} | {', '.join('`'+b+'`' for b in oc['buckets'][:3])}{' …' if len(oc['buckets'])>3 else ''} |")
+put("SEEDED", f"{total} independently seeded changes (one sub-agent per pair of properties, given only the property text and a scratch worktree); {caught} are caught by the quick tier of the property's check (or, where marked, of the sibling check whose property the change really breaks); {sum(1 for p_ in glob.glob("seeded/*/meta.json") if json.load(open(p_))["our_check"].get("disputed"))} disputed (not a violation of the property as stated - see its note).\n\n" + "\n".join(rows))
 
 miss = []
 for path in sorted(glob.glob("seeded/*/meta.json")):
     m = json.load(open(path)); oc = m["our_check"]
     if oc.get("caught_by_quick_initially") is False:
         miss.append(f"* **{os.path.basename(os.path.dirname(path))}** ({'caught now' if oc['caught_by_quick'] else 'STILL MISSED'}): {oc.get('note', '')}")
+    elif oc.get("disputed"):
+        miss.append(f"* **{os.path.basename(os.path.dirname(path))}** (disputed): {oc.get('note', '')}")
 put("MISSES", "\n".join(miss) if miss else "(none)")
 
 # ---- check sizes ----------------------------------------------------------
